@@ -61,18 +61,59 @@ thread_local! {
     static ENV: RefCell<Option<Arc<dyn Env>>> = RefCell::new(None);
 }
 
+/// Process-wide fallback for threads that have no `Env` of their own (threads solstat itself may
+/// start): used only while a simulator runs one simulated run at a time.
+static GLOBAL_ENV: std::sync::RwLock<Option<Arc<dyn Env>>> = std::sync::RwLock::new(None);
+/// number of threads that currently have an `Env` installed
+static INSTALLED: std::sync::atomic::AtomicUsize = std::sync::atomic::AtomicUsize::new(0);
+/// file-system calls made by threads without any `Env` while some other thread had one installed
+static ORPHAN_CALLS: std::sync::atomic::AtomicU64 = std::sync::atomic::AtomicU64::new(0);
+
 /// Route this thread's environment calls through `env`.
 pub fn install(env: Arc<dyn Env>) {
-    ENV.with(|e| *e.borrow_mut() = Some(env));
+    ENV.with(|e| {
+        if e.borrow_mut().replace(env).is_none() {
+            INSTALLED.fetch_add(1, std::sync::atomic::Ordering::SeqCst);
+        }
+    });
 }
 
 /// Back to `std` for this thread.
 pub fn uninstall() {
-    ENV.with(|e| *e.borrow_mut() = None);
+    ENV.with(|e| {
+        if e.borrow_mut().take().is_some() {
+            INSTALLED.fetch_sub(1, std::sync::atomic::Ordering::SeqCst);
+        }
+    });
+}
+
+/// Set (or clear) the process-wide fallback `Env`.
+pub fn install_global(env: Option<Arc<dyn Env>>) {
+    if let Ok(mut g) = GLOBAL_ENV.write() {
+        *g = env;
+    }
+}
+
+/// How many file-system calls went to the real `std::fs` from a thread without an `Env` while a
+/// simulation was active on another thread (a sign that the code under test starts threads).
+pub fn orphan_calls() -> u64 {
+    ORPHAN_CALLS.load(std::sync::atomic::Ordering::SeqCst)
 }
 
 pub fn current() -> Option<Arc<dyn Env>> {
-    ENV.with(|e| e.borrow().clone())
+    if let Some(e) = ENV.with(|e| e.borrow().clone()) {
+        return Some(e);
+    }
+    GLOBAL_ENV.read().ok().and_then(|g| g.clone())
+}
+
+/// `current()` for the file-system facades: also keeps the orphan statistic.
+fn current_fs() -> Option<Arc<dyn Env>> {
+    let c = current();
+    if c.is_none() && INSTALLED.load(std::sync::atomic::Ordering::SeqCst) > 0 {
+        ORPHAN_CALLS.fetch_add(1, std::sync::atomic::Ordering::SeqCst);
+    }
+    c
 }
 
 /// Scheduling point: lets an installed `Env` decide which thread proceeds. No-op without one.
@@ -173,7 +214,7 @@ pub fn path_is_file(p: &Path) -> bool {
 // std::fs facade
 
 pub mod fs {
-    use super::{current, path_is_dir, path_is_file, PathSeam, WriteMode};
+    use super::{current, current_fs, path_is_dir, path_is_file, PathSeam, WriteMode};
     use std::ffi::OsString;
     use std::io::{self, Read, Write};
     use std::path::{Path, PathBuf};
@@ -255,7 +296,7 @@ pub mod fs {
 
     pub fn read_dir<P: AsRef<Path>>(dir: P) -> io::Result<ReadDir> {
         let dir = dir.as_ref();
-        let entries = match current() {
+        let entries = match current_fs() {
             Some(env) => env.read_dir(dir)?,
             None => {
                 let mut v = vec![];
@@ -271,14 +312,14 @@ pub mod fs {
     }
 
     pub fn read<P: AsRef<Path>>(p: P) -> io::Result<Vec<u8>> {
-        match current() {
+        match current_fs() {
             Some(env) => env.read(p.as_ref()),
             None => std::fs::read(p),
         }
     }
 
     pub fn read_to_string<P: AsRef<Path>>(p: P) -> io::Result<String> {
-        match current() {
+        match current_fs() {
             Some(env) => {
                 let bytes = env.read(p.as_ref())?;
                 String::from_utf8(bytes).map_err(|_| {
@@ -293,7 +334,7 @@ pub mod fs {
     }
 
     pub fn write<P: AsRef<Path>, C: AsRef<[u8]>>(p: P, contents: C) -> io::Result<()> {
-        match current() {
+        match current_fs() {
             Some(env) => env.write(p.as_ref(), contents.as_ref(), WriteMode::Truncate),
             None => std::fs::write(p, contents),
         }
